@@ -212,6 +212,11 @@ def trace_assemble(src: str, rom: str = "low_rom", cwd: str | None = None, timeo
                                     rec["opcode"] = n.opcode
                                     rec["mode"] = n.addressing_mode.name
                                     try:
+                                        pos = n.file_info.position
+                                        rec["line"], rec["file"] = pos.line, pos.file.filename
+                                    except Exception:  # noqa: BLE001
+                                        rec["line"], rec["file"] = None, None
+                                    try:
                                         rec["value"] = n.value_node.get_value() if n.value_node is not None else None
                                     except Exception:  # noqa: BLE001
                                         rec["value"] = None
